@@ -113,7 +113,8 @@ class Surface(SplineObject):
         """
 
         squeeze = all(is_singleton(t) for t in [u,v])
-        derivs = ensure_listlike(d, self.pardim)
+        derivs = tuple(ensure_listlike(d, self.pardim))
+        above  = ensure_listlike(above, self.pardim)
         if not self.rational or np.sum(derivs) < 2 or np.sum(derivs) > 3:
             return super(Surface, self).derivative(u,v, d=derivs, above=above, tensor=tensor)
 
@@ -122,8 +123,8 @@ class Surface(SplineObject):
         result = np.zeros((len(u), len(v), self.dimension))
         # dNus = [self.bases[0].evaluate(u, d, above) for d in range(derivs[0]+1)]
         # dNvs = [self.bases[1].evaluate(v, d, above) for d in range(derivs[1]+1)]
-        dNus = [self.bases[0].evaluate(u, d, above) for d in range(np.sum(derivs)+1)]
-        dNvs = [self.bases[1].evaluate(v, d, above) for d in range(np.sum(derivs)+1)]
+        dNus = [self.bases[0].evaluate(u, d, above[0]) for d in range(np.sum(derivs)+1)]
+        dNvs = [self.bases[1].evaluate(v, d, above[1]) for d in range(np.sum(derivs)+1)]
 
         d0ud0v = evaluate([dNus[0], dNvs[0]], self.controlpoints, tensor)
         d1ud0v = evaluate([dNus[1], dNvs[0]], self.controlpoints, tensor)
